@@ -25,7 +25,7 @@ import (
 // c20Step is one client action.
 type c20Step struct {
 	Client int    `json:"client"` // 0..2
-	Op     string `json:"op"`     // names | set | setuser | query
+	Op     string `json:"op"`     // names | namesdefault | charset (SET CHARACTER SET) | csvar (character_set_x = v|DEFAULT) | collconn | set | setuser | query
 	Var    string `json:"var,omitempty"`
 	Val    string `json:"val,omitempty"` // SQL text of the value; "DEFAULT" / "NULL" reset
 	Bad    bool   `json:"bad,omitempty"` // the backend is scripted to reject this value
@@ -44,6 +44,14 @@ func (s c20Step) sql(idx int) string {
 			return fmt.Sprintf("SET NAMES %s COLLATE %s", s.Val, s.Coll)
 		}
 		return "SET NAMES " + s.Val
+	case "namesdefault":
+		return "SET NAMES DEFAULT"
+	case "charset":
+		return "SET CHARACTER SET " + s.Val
+	case "csvar":
+		return fmt.Sprintf("SET %s = %s", s.Var, s.Val)
+	case "collconn":
+		return "SET collation_connection = " + s.Val
 	case "set":
 		return fmt.Sprintf("SET %s = %s", s.Var, s.Val)
 	case "setuser":
@@ -66,6 +74,27 @@ func (s c20Step) describe(idx int) string {
 
 func (s c20Step) String() string { return s.describe(0) }
 
+// kind is the class of a step used in signatures of charset mismatches.
+func (s c20Step) kind() string {
+	switch s.Op {
+	case "names":
+		if s.Coll != "" {
+			return "names_collate"
+		}
+		return "names"
+	case "csvar":
+		if s.Val == "DEFAULT" {
+			return "cs_default"
+		}
+		return "cs_value"
+	case "collconn":
+		return "collation_connection"
+	case "charset":
+		return "character_set"
+	}
+	return s.Op
+}
+
 // the variables of the workload: name -> class, good values, the value the backend rejects
 type c20VarSpec struct {
 	Class string
@@ -83,6 +112,12 @@ var c20VarNames = []string{"sql_mode", "time_zone", "sql_select_limit", "optimiz
 
 var c20Charsets = [][2]string{{"utf8", ""}, {"utf8mb4", ""}, {"latin1", ""}, {"gbk", ""}, {"utf8mb4", "utf8mb4_bin"}, {"utf8", "utf8_bin"}, {"latin1", "latin1_bin"}}
 
+// the namespace's (= the "server's" and the database's) default character set and collation
+const (
+	c20NsCharset   = "utf8mb4"
+	c20NsCollation = "utf8mb4_general_ci"
+)
+
 // handshake collations of the three clients
 var c20Handshake = []struct {
 	ID        byte
@@ -92,7 +127,8 @@ var c20Handshake = []struct {
 
 // c20Model is what one client has requested so far.
 type c20Model struct {
-	Charset, Collation string
+	Client, Conn, Results string // character_set_client / _connection / _results
+	Collation            string // collation_connection
 	Vars               map[string]string // canonical values of non-default settings
 	User               map[string]string
 	Unknown            map[string]bool // variables whose last requested value the backend rejects
@@ -100,11 +136,11 @@ type c20Model struct {
 
 func c20NewModel(client int) *c20Model {
 	h := c20Handshake[client]
-	return &c20Model{Charset: h.Charset, Collation: h.Collation, Vars: map[string]string{}, User: map[string]string{}, Unknown: map[string]bool{}}
+	return &c20Model{Client: h.Charset, Conn: h.Charset, Results: h.Charset, Collation: h.Collation, Vars: map[string]string{}, User: map[string]string{}, Unknown: map[string]bool{}}
 }
 
 func (m *c20Model) clone() *c20Model {
-	c := &c20Model{Charset: m.Charset, Collation: m.Collation, Vars: map[string]string{}, User: map[string]string{}, Unknown: map[string]bool{}}
+	c := &c20Model{Client: m.Client, Conn: m.Conn, Results: m.Results, Collation: m.Collation, Vars: map[string]string{}, User: map[string]string{}, Unknown: map[string]bool{}}
 	for k, v := range m.Vars {
 		c.Vars[k] = v
 	}
@@ -121,11 +157,36 @@ func (m *c20Model) clone() *c20Model {
 func (m *c20Model) apply(s c20Step) {
 	switch s.Op {
 	case "names":
-		m.Charset = s.Val
+		m.Client, m.Conn, m.Results = s.Val, s.Val, s.Val
 		m.Collation = s.Coll
 		if m.Collation == "" {
 			m.Collation, _ = fakemysql.DefaultCollation(s.Val)
 		}
+	case "namesdefault":
+		m.Client, m.Conn, m.Results, m.Collation = c20NsCharset, c20NsCharset, c20NsCharset, c20NsCollation
+	case "charset":
+		// MySQL: client and results become x, the connection takes the database's character set and collation
+		m.Client, m.Results = s.Val, s.Val
+		m.Conn, m.Collation = c20NsCharset, c20NsCollation
+	case "csvar":
+		if s.Val == "DEFAULT" {
+			// Gaea defines character_set_x = DEFAULT as the return of the session to the
+			// namespace's default character set and collation (it keeps one charset per session)
+			m.Client, m.Conn, m.Results, m.Collation = c20NsCharset, c20NsCharset, c20NsCharset, c20NsCollation
+			break
+		}
+		switch s.Var {
+		case "character_set_client":
+			m.Client = s.Val
+		case "character_set_results":
+			m.Results = s.Val
+		default:
+			m.Conn = s.Val
+			m.Collation, _ = fakemysql.DefaultCollation(s.Val)
+		}
+	case "collconn":
+		m.Collation = s.Val
+		m.Conn, _ = fakemysql.CharsetOfCollation(s.Val)
 	case "set":
 		delete(m.Unknown, s.Var)
 		if s.Val == "DEFAULT" {
@@ -167,8 +228,8 @@ func c20Namespace(capacity int, addr string) *models.Namespace {
 		Slices:                  []*models.Slice{sl},
 		Users:                   []*models.User{rigUser(name, name+"_u", "pw", models.ReadWrite, models.NoReadWriteSplit)},
 		DefaultSlice:            "slice-0",
-		DefaultCharset:          "utf8mb4",
-		DefaultCollation:        "utf8mb4_general_ci",
+		DefaultCharset:          c20NsCharset,
+		DefaultCollation:        c20NsCollation,
 		AllowedSessionVariables: map[string]string{"optimizer_switch": "string"},
 	}
 }
@@ -362,9 +423,10 @@ func c20RunCase(rg *c20Rig, c c20Case) (c20Outcome, error) {
 			m.Step, m.BackendID = step, e.ConnID
 			o.Mis = append(o.Mis, m)
 		}
-		if act.CharsetClient != req.Charset || act.CharsetConnection != req.Charset || act.CharsetResults != req.Charset || act.Collation != req.Collation {
-			add(c20Mismatch{Clause: "charset-mismatch", Class: "names", Var: "names",
-				Actual: fmt.Sprintf("%s/%s/%s %s", act.CharsetClient, act.CharsetConnection, act.CharsetResults, act.Collation), Requested: req.Charset + " " + req.Collation})
+		if act.CharsetClient != req.Client || act.CharsetConnection != req.Conn || act.CharsetResults != req.Results || act.Collation != req.Collation {
+			add(c20Mismatch{Clause: "charset-mismatch", Class: "names", Var: "client/connection/results collation",
+				Actual:    fmt.Sprintf("%s/%s/%s %s", act.CharsetClient, act.CharsetConnection, act.CharsetResults, act.Collation),
+				Requested: fmt.Sprintf("%s/%s/%s %s", req.Client, req.Conn, req.Results, req.Collation)})
 		}
 		cmp := func(actual, requested map[string]string, user bool) {
 			names := map[string]bool{}
@@ -426,6 +488,25 @@ func c20Sig(c c20Case, m c20Mismatch) string {
 		if s.Bad {
 			rej = c20ClassOf(s.Var, false)
 		}
+	}
+	if m.Clause == "charset-mismatch" {
+		// which kinds of character set statements the minimal case needs
+		set := map[string]bool{}
+		for _, s := range c.Steps {
+			switch s.Op {
+			case "names", "namesdefault", "charset", "csvar", "collconn":
+				set[s.kind()] = true
+			}
+		}
+		kinds := make([]string, 0, len(set))
+		for k := range set {
+			kinds = append(kinds, k)
+		}
+		sort.Strings(kinds)
+		if len(kinds) == 0 {
+			kinds = []string{"handshake"}
+		}
+		return fmt.Sprintf("C20:%s:%s:after-reject=%s", m.Clause, strings.Join(kinds, "+"), rej)
 	}
 	return fmt.Sprintf("C20:%s:after-reject=%s", m.Clause, rej)
 }
@@ -494,6 +575,22 @@ func c20GenCase(r *kit.Rand) c20Case {
 		case k < 6:
 			cs := c20Charsets[r.Intn(len(c20Charsets))]
 			s = c20Step{Client: cl, Op: "names", Val: cs[0], Coll: cs[1]}
+			switch x := r.Intn(12); {
+			case x < 3: // one of the three character_set_x variables: a value or DEFAULT
+				v := []string{"character_set_client", "character_set_results", "character_set_connection"}[r.Intn(3)]
+				val := "DEFAULT"
+				if r.Bool() {
+					val = []string{"utf8", "utf8mb4", "latin1", "gbk"}[r.Intn(4)]
+				}
+				s = c20Step{Client: cl, Op: "csvar", Var: v, Val: val}
+			case x == 3:
+				// collations no other step can produce: whether the statement took effect never depends on the history
+				s = c20Step{Client: cl, Op: "collconn", Val: []string{"utf8mb4_unicode_ci", "utf8_unicode_ci", "latin1_general_ci", "gbk_bin"}[r.Intn(4)]}
+			case x == 4:
+				s = c20Step{Client: cl, Op: "charset", Val: []string{"utf8", "utf8mb4", "latin1", "gbk"}[r.Intn(4)]}
+			case x == 5:
+				s = c20Step{Client: cl, Op: "namesdefault"}
+			}
 		case k < 10:
 			v := c20VarNames[r.Intn(len(c20VarNames))]
 			spec := c20Vars[v]
@@ -532,9 +629,10 @@ func (c c20Case) describe() string {
 }
 
 func TestVerif_C20(t *testing.T) {
-	rec := kit.Start("C20", "exploration", "case = interleaving of <=12 steps of 2-3 clients over one real connection pool of capacity 1-2: SET NAMES x [COLLATE y], SET sql_mode/time_zone/sql_select_limit/optimizer_switch(allowed custom) = good value | value the backend rejects | DEFAULT, SET @u = v | NULL, query; generated from the seed; non-trivial when at least two clients' queries ran on the same backend connection; distinct key = hash of the step sequence")
+	rec := kit.Start("C20", "exploration", "case = interleaving of <=12 steps of 2-3 clients over one real connection pool of capacity 1-2: SET NAMES x [COLLATE y] | SET NAMES DEFAULT | SET CHARACTER SET x | SET character_set_client/results/connection = x | DEFAULT | SET collation_connection = y, SET sql_mode/time_zone/sql_select_limit/optimizer_switch(allowed custom) = good value | value the backend rejects | DEFAULT, SET @u = v | NULL, query; generated from the seed; non-trivial when at least two clients' queries ran on the same backend connection; distinct key = hash of the step sequence")
 	defer rec.Finish(t)
 	rec.Assume("the fake backend applies a multi-assignment SET atomically or rejects it atomically (MySQL checks all assignments before updating any); it rejects only the scripted values: sql_mode 'NO_SUCH_MODE' (1231), time_zone '+05:99' (1298), sql_select_limit -1 (1231), optimizer_switch 'no_such_flag=on' (1231)")
+	rec.Assume("character set model = MySQL's: SET NAMES sets client/connection/results and the collation; character_set_connection = x also sets the collation to x's default; collation_connection = y also sets character_set_connection; SET CHARACTER SET x sets client/results to x and the connection to the database's (= namespace default) charset and collation; exception: character_set_x = DEFAULT is taken with Gaea's meaning, the return of the whole session to the namespace default charset and collation")
 	rec.Assume("requested state = handshake collation, then every SET the proxy acknowledged with OK; a variable whose last requested value is one the backend rejects is 'unknown' until set again; steps run one at a time (no concurrent statements), pools are re-opened before each interleaving")
 	rg, err := c20Start(t)
 	if err != nil {
